@@ -203,6 +203,8 @@ def check(ctx: Ctx) -> None:
                    "R9.rt", f"{DEF}::XtcePacketDefinition::nested three deep, only the root listed::registered",
                    "every nested container and its parameters are registered and written",
                    f"containers after write+load: {names}; parameters: {sorted(d1.attrs.get('parameters', {}))}")
+    ctx.guard("R9.rt", DEF, round_trip, ctx, "equal-but-distinguishable enumeration keys; every supported character set",
+              lambda h: h.ev(X.twins_src(X.supported_charsets(h)), DEF))
     ctx.guard("R9.ord", DEF, other_order, ctx)
 
 
